@@ -6,5 +6,11 @@ table = subprocess.run([sys.executable, os.path.join(V, "tools", "seeded_table.p
 p = os.path.join(V, "DESIGN.md")
 s = open(p).read()
 s2 = re.sub(r"<!-- SEEDED-TABLE-BEGIN -->.*?<!-- SEEDED-TABLE-END -->", lambda m: "<!-- SEEDED-TABLE-BEGIN -->\n" + table + "\n<!-- SEEDED-TABLE-END -->", s, flags=re.S)
+import glob, json
+rows = ["| kept change | property | what changed | checks run (all exit 0) |", "|---|---|---|---|"]
+for d in sorted(glob.glob(os.path.join(V, "benign", "*", "meta.json"))):
+    m = json.load(open(d))
+    rows.append("| `benign/%s` | %s | %s | %s |" % (os.path.basename(os.path.dirname(d)), m["property"], m["what_changed"].replace("|", "/"), "; ".join(m["ran"]).replace("|", "/")))
+s2 = re.sub(r"<!-- BENIGN-TABLE-BEGIN -->.*?<!-- BENIGN-TABLE-END -->", lambda m: "<!-- BENIGN-TABLE-BEGIN -->\n" + "\n".join(rows) + "\n<!-- BENIGN-TABLE-END -->", s2, flags=re.S)
 open(p, "w").write(s2)
 print("table rows:", table.count("\n") - 1)
